@@ -1381,3 +1381,246 @@ def c17_fn_search(rp, seed):
         if bad:
             return r2, msg
     return None
+
+
+# ---------------------------------------------------------------- C19
+@checker("c19_predict")
+def c19_predict(rp):
+    beta = num(rp.get("beta", enc(25 / 6)))
+    out = {}
+    for name in (rp["a"], rp["b"]):
+        m = model_cls(name)(beta=beta)
+        out[name] = getattr(m, rp["op"])(mk_game(name, rp["game"]))
+    return out[rp["a"]] != out[rp["b"]], f"{rp['op']}: {rp['a']} -> {str(out[rp['a']])[:80]} ; {rp['b']} -> {str(out[rp['b']])[:80]}"
+
+
+@searcher("c19_predict")
+def c19_predict_search(rp, seed):
+    rnd = random.Random(seed)
+    for _ in range(200):
+        r2 = dict(rp, game=_rand_pred(rnd, rp["sizes"]), beta=enc(25 / 6))
+        try:
+            bad, msg = c19_predict(r2)
+        except Exception:  # noqa: BLE001
+            continue
+        if bad:
+            return r2, msg
+    return None
+
+
+@checker("c19_btp")
+def c19_btp(rp):
+    out = {}
+    for name in ("BradleyTerryFull", "BradleyTerryPart"):
+        kw = {"gamma": _custom_gamma} if rp.get("gamma") == "custom" else {}
+        m = mk_model(name, rp["params"], **kw)
+        out[name] = values(m.rate(mk_game(name, rp["game"]), ranks=rp.get("ranks")))
+    return out["BradleyTerryFull"] != out["BradleyTerryPart"], f"two-team game: BradleyTerryFull {str(out['BradleyTerryFull'])[:90]} ; BradleyTerryPart {str(out['BradleyTerryPart'])[:90]}"
+
+
+@searcher("c19_btp")
+def c19_btp_search(rp, seed):
+    rnd = random.Random(seed)
+    for _ in range(200):
+        r2 = dict(rp, game=rand_game(rnd, rp["sizes"]), params=_std_params())
+        try:
+            bad, msg = c19_btp(r2)
+        except Exception:  # noqa: BLE001
+            continue
+        if bad:
+            return r2, msg
+    return None
+
+
+@checker("c19_validation")
+def c19_validation(rp):
+    got = {}
+    for name in (rp["ref"], rp["model"]):
+        r2 = dict(rp, model=name)
+        m = mk_model(name, _std_params())
+        args = [build_arg(rp["teams"], name, rp["objs"], rp["nums"], rp["game"])]
+        kw = {}
+        if rp["op"] == "rate":
+            kw["ranks"] = build_arg(rp["ranks"], name, rp["objs"], rp["nums"], rp["game"])
+            kw["scores"] = build_arg(rp["scores"], name, rp["objs"], rp["nums"], rp["game"])
+        try:
+            getattr(m, rp["op"])(*args, **kw)
+            got[name] = None
+        except Exception as e:  # noqa: BLE001
+            got[name] = type(e).__name__
+    return got[rp["ref"]] != got[rp["model"]], f"{rp['op']} on the same arguments: {got}"
+
+
+@checker("c19_signatures")
+def c19_signatures(rp):
+    import inspect
+    A, B = model_cls(rp["a"]), model_cls(rp["b"])
+    for n in sorted(set(dir(A)) | set(dir(B))):
+        if n.startswith("_") and not n.startswith("__"):
+            continue
+        fa, fb = getattr(A, n, None), getattr(B, n, None)
+        if callable(fa) != callable(fb) or (fa is None) != (fb is None):
+            return True, f"{n}: present/callable differs"
+        if callable(fa) and n in A.__dict__:
+            try:
+                sa = [(q.name, str(q.kind), repr(q.default).replace(rp["a"], "M")) for q in inspect.signature(fa).parameters.values()]
+                sb = [(q.name, str(q.kind), repr(q.default).replace(rp["b"], "M")) for q in inspect.signature(fb).parameters.values()]
+                sa = [x if "function _gamma" not in x[2] else (x[0], x[1], "_gamma") for x in sa]
+                sb = [x if "function _gamma" not in x[2] else (x[0], x[1], "_gamma") for x in sb]
+            except (TypeError, ValueError):
+                continue
+            if sa != sb:
+                return True, f"{n}{sa} vs {n}{sb}"
+    return False, "same public operations and signatures"
+
+
+@checker("c19_registry")
+def c19_registry(rp):
+    _repo_on_path()
+    import openskill.models as OM
+    names = sorted(c.__name__ for c in OM.MODELS)
+    return names != sorted(MODELS), f"MODELS = {names}"
+
+
+@checker("c19_rating")
+def c19_rating(rp):
+    A, B = rating_cls(rp["a"]), rating_cls(rp["b"])
+    what = rp["what"]
+    for (mu1, s1, mu2, s2) in ((1.0, 2.0, 1.0, 2.0), (3.0, 1.0, 0.0, 0.0), (0.0, 1.0, 3.0, 2.0), (5, 1, 5.0, 1.0)):
+        res = []
+        for R in (A, B):
+            a, b = R(mu1, s1, "A"), R(mu2, s2)
+            a.id = "x"
+            try:
+                if what == "hash":
+                    res.append(hash(a))
+                elif what == "deepcopy":
+                    c = copy.deepcopy(a)
+                    res.append((c is not a, c.id, c.name, c.mu, c.sigma, sorted(c.__dict__)))
+                elif what.startswith("ordinal"):
+                    res.append(a.ordinal() if what == "ordinal" else a.ordinal(2.5))
+                elif what.endswith("/foreign"):
+                    try:
+                        res.append(getattr(a, what.split("/")[0])(7))
+                    except Exception as e:  # noqa: BLE001
+                        res.append(type(e).__name__)
+                else:
+                    res.append(getattr(a, what)(b))
+            except Exception as e:  # noqa: BLE001
+                res.append(type(e).__name__)
+        if res[0] != res[1]:
+            return True, f"{what}: {rp['a']}Rating -> {res[0]!r}, {rp['b']}Rating -> {res[1]!r}"
+    return False, "same rule"
+
+
+# ---------------------------------------------------------------- C04
+@checker("c04_perm")
+def c04_perm(rp):
+    name = rp["model"]
+    n = len(rp["game"])
+    ranks = _vec(rp.get("ranks")) or list(range(n))
+    base = real_rate_concrete(dict(rp, ranks=[enc(x) for x in ranks]))
+    partial = name.endswith("Part")
+    perms = [rp["perm"]] if rp.get("perm") else list(__import__("itertools").permutations(range(n)))[:24]
+    if rp.get("clause") == "canary":
+        r2 = list(ranks)
+        r2[0], r2[1] = r2[1], r2[0]
+        other = real_rate_concrete(dict(rp, ranks=[enc(x) for x in r2]))
+        return other != base, "swapping the outcome of two teams changes the result"
+    for pi in perms:
+        if partial and any(ranks[i] == ranks[j] and list(pi).index(i) > list(pi).index(j) for i in range(n) for j in range(i + 1, n)):
+            continue
+        g2 = [rp["game"][k] for k in pi]
+        out = real_rate_concrete(dict(rp, game=g2, ranks=[enc(ranks[k]) for k in pi]))
+        for p, k in enumerate(pi):
+            for j in range(len(g2[p])):
+                if not (close(out[p][j][0], base[k][j][0], 1e-9) and close(out[p][j][1], base[k][j][1], 1e-9)):
+                    return True, f"{name}: teams presented in order {list(pi)} (ranks {ranks}): player [{k}][{j}] gets {out[p][j]} instead of {base[k][j]}"
+    # players reversed inside every team
+    g3 = [list(reversed(t)) for t in rp["game"]]
+    out = real_rate_concrete(dict(rp, game=g3, ranks=[enc(x) for x in ranks]))
+    for i in range(n):
+        m = len(g3[i])
+        for j in range(m):
+            if not (close(out[i][j][0], base[i][m - 1 - j][0], 1e-9) and close(out[i][j][1], base[i][m - 1 - j][1], 1e-9)):
+                return True, f"{name}: players of team {i} reversed: {out[i][j]} vs {base[i][m - 1 - j]}"
+    return False, "equivariant"
+
+
+@searcher("c04_perm")
+def c04_perm_search(rp, seed):
+    rnd = random.Random(seed)
+    sizes = [len(x) for x in rp["game"]]
+    n = len(sizes)
+    for _ in range(300):
+        r2 = dict(rp, game=rand_game(rnd, sizes), ranks=[enc(rnd.choice(range(n))) for _ in range(n)], params=_std_params())
+        try:
+            bad, msg = c04_perm(r2)
+        except Exception:  # noqa: BLE001
+            continue
+        if bad:
+            return r2, msg
+    return None
+
+
+# ---------------------------------------------------------------- C16
+@checker("c16_rate")
+def c16_rate(rp):
+    name = rp["model"]
+    base = real_rate_concrete(rp)
+    mode = rp.get("mode", "scale")
+    for f in ((1e-3, 0.37, 12.5, 1e3) if mode == "scale" else (-11.0, 3.5, 40.0)):
+        if mode == "scale":
+            g2 = [[[enc(num(q[0]) * f), enc(num(q[1]) * f)] for q in t] for t in rp["game"]]
+            p2 = {k: (enc(num(v) * f) if k != "kappa" else v) for k, v in rp["params"].items()}
+        else:
+            g2 = [[[enc(num(q[0]) + f), q[1]] for q in t] for t in rp["game"]]
+            p2 = rp["params"]
+        out = real_rate_concrete(dict(rp, game=g2, params=p2))
+        for i, t in enumerate(base):
+            for j, (mu, sg) in enumerate(t):
+                wm, ws = (mu * f, sg * f) if mode == "scale" else (mu + f, sg)
+                if rp.get("clause") == "canary":
+                    wm, ws = mu, sg
+                if not (close(out[i][j][0], wm, 1e-10, 1e-13 * max(1.0, abs(wm))) and close(out[i][j][1], ws, 1e-10, 1e-13)):
+                    return True, f"{name}.rate under {mode} by {f}: player [{i}][{j}] -> {out[i][j]}, expected ({wm!r}, {ws!r})"
+    return False, f"{mode} invariance holds"
+
+
+@searcher("c16_rate")
+def c16_rate_search(rp, seed):
+    rnd = random.Random(seed)
+    sizes = [len(x) for x in rp["game"]]
+    for _ in range(100):
+        r2 = dict(rp, game=rand_game(rnd, sizes), params=_std_params())
+        try:
+            bad, msg = c16_rate(r2)
+        except Exception:  # noqa: BLE001
+            continue
+        if bad:
+            return r2, msg
+    return None
+
+
+@checker("c16_predict")
+def c16_predict(rp):
+    name = rp["model"]
+    beta = 25 / 6
+    base = getattr(model_cls(name)(beta=beta), rp["op"])(mk_game(name, rp["game"]))
+    mode = rp["mode"]
+    for f in ((1e-3, 0.37, 1e3) if mode == "scale" else (-11.0, 40.0)):
+        if mode == "scale":
+            g2 = [[[enc(num(q[0]) * f), enc(num(q[1]) * f)] for q in t] for t in rp["game"]]
+            m = model_cls(name)(beta=beta * f)
+        else:
+            g2 = [[[enc(num(q[0]) + f), q[1]] for q in t] for t in rp["game"]]
+            m = model_cls(name)(beta=beta)
+        out = getattr(m, rp["op"])(mk_game(name, g2))
+        fa = base if isinstance(base, list) else [base]
+        fb = out if isinstance(out, list) else [out]
+        for a, b in zip(fa, fb):
+            xa = a if isinstance(a, tuple) else (a,)
+            xb = b if isinstance(b, tuple) else (b,)
+            if any(abs(u - v) > 1e-11 for u, v in zip(xa, xb)):
+                return True, f"{name}.{rp['op']} under {mode} by {f}: {out} vs {base}"
+    return False, "invariant"
